@@ -83,6 +83,23 @@ class Recorder:
                          "result": res.tolist() if hasattr(res, "tolist") else res})
         return res
 
+    def np_default_rng(self, *a, **k):
+        """numpy.random.default_rng(): BallotSimplex draws its Dirichlet point from a fresh Generator."""
+        rec = self
+
+        class _Gen:
+            def dirichlet(self, alpha, size=None):
+                if rec.poison:
+                    raise Poisoned("Generator.dirichlet called")
+                res = rec.nprng.dirichlet(alpha, size)
+                rec.log.append({"kind": "dirichlet", "alpha": [float(x) for x in alpha], "size": size,
+                                "result": res.tolist()})
+                return res
+
+            def __getattr__(self, name):
+                raise Poisoned(f"unrecorded Generator method {name}")
+        return _Gen()
+
     def np_shuffle(self, x):
         if self.poison:
             raise Poisoned("numpy.random.shuffle called")
@@ -137,6 +154,7 @@ def installed(rec: Recorder):
         (_random, "shuffle", rec.shuffle),
         (_np.random, "choice", rec.np_choice), (_np.random, "shuffle", rec.np_shuffle),
         (_np.random, "uniform", rec.np_uniform), (_np.random, "normal", rec.np_normal),
+        (_np.random, "default_rng", rec.np_default_rng),
     ]
     for mod, name, fn in patches:
         saved[(mod, name)] = getattr(mod, name)
